@@ -290,6 +290,6 @@ package core
 //@ func (*JApiCore).scanProject
 //@   tag C02
 //@   requires core != nil && StackInv(core.scannersStack)
-//@   ensures [C02] je != nil && len(core.scannersStack.stack) > 0 ==> len(je.includeTrace) > 0
+//@   ensures [C02] ret != nil && len(core.scannersStack.stack) > 0 ==> len(ret.includeTrace) > 0
 //@   unclaimed #requires@processEOF the scan-level composition of CoreScanInv is not discharged (see comment above)
 //@   loop 1 invariant core != nil && StackInv(core.scannersStack)
